@@ -10,7 +10,13 @@ from . import c08
 
 
 def scenario_strategy(tier):
-    return c08.pipeline_strategy(tier)
+    def finite(scn):
+        # most scenarios have sources that really end (their processes terminate), so that the agenda can run dry while
+        # samplers are still active
+        if scn["seed"] % 4:
+            scn = dict(scn, finite=True, gens=[dict(g, gaps=g["gaps"][:-1] + [g["gaps"][-1] or 0.5]) for g in scn["gens"]])
+        return scn
+    return c08.pipeline_strategy(tier).map(finite)
 
 
 def trace_of(case, driver=None):
@@ -51,10 +57,13 @@ def run_net_split(case):
     again = trace_of(case["scn"])
     if again != ref:
         raise Violation("C03.repro", "network scenario: two executions differ", "C03.repro/net")
-    return {"nontrivial": len(ref) >= 10 and len(case["stops"]) >= 2, "classes": ["network scenario split"]}
+    classes = ["network scenario split"]
+    if any(isinstance(e, list) and e and e[0] == "monitor" for e in ref):
+        classes.append("scenario with monitors")
+    return {"nontrivial": len(ref) >= 10 and len(case["stops"]) >= 2, "classes": classes}
 
 
 def net_split_strategy(tier):
-    stop = st.one_of(st.tuples(st.just("until"), st.sampled_from([0.125, 0.5, 1, 0.1, 0.0625, 2])),
+    stop = st.one_of(st.tuples(st.just("until"), st.sampled_from([0.125, 0.5, 1, 0.1, 0.0625, 2, 8, 16, 32])),
                      st.tuples(st.just("step"), st.integers(1, 7))).map(list)
     return st.fixed_dictionaries({"scn": scenario_strategy(tier), "stops": st.lists(stop, min_size=2, max_size=8)})
